@@ -9,7 +9,6 @@ NA_REASONS = {
     "C23": "RNG state, seed spawning and bit generators are C code with hidden mutable state.",
     "C26": "Import-order side effects on xarray's chunk-manager registry in fresh interpreters; no arithmetic.",
     "C28": "Unknown sizes become known only by executing NumPy kernels on data; the guards are NaN dispatch with nothing to quantify.",
-    "C29": "'Never touches data' is an effect/taint property of calls on external objects, not a value property a solver can decide.",
 }
 PENDING = "solver-based check designed in DESIGN.md section 6 but not yet built in this revision"
 
@@ -232,6 +231,19 @@ check("C06",
       "pairs of nodes from unrelated programs in one process, random arrays, persisted graphs, dask's SingletonExpr registry and "
       "the name-keyed lowering cache across programs (the latter under C09).",
       "DESIGN.md 6 C06", technique="bounded symbolic execution of the repo's own optimizer pipeline and naming code on symbolic-size expression trees (symx nodes) + symbolic-array graph execution + z3 SMT (QF_UFLIA)")
+
+check("C29",
+      "Solver-decided for the catalogue programs built over recording sources (array-likes that are not NumPy arrays and note every "
+      "selection requested from them) and recording user block functions, with symbolic chunk sizes, bounds and data: while a "
+      "program is constructed through the public functions, while its metadata is read (shape, chunks, dtype, name, keys, "
+      "numblocks, size, meta, transfer estimate) and while it is optimized (simplify, lower, fuse, materialize with optimization "
+      "on and off, Array.optimize), every selection requested from a source has a zero extent and every call of a user block "
+      "function is on empty blocks -- for every chunk-size assignment; executing the graph afterwards does read the sources "
+      "(the recorder is live).",
+      "Trusted: as C01; meta_from_array on a symbolic source is emulated (requests the empty selection the real function requests, "
+      "returns a real empty array). Not counted: calls on dask's one-element dtype-inference dummy; len()/repr() (concretisation). "
+      "Outside: NumPy sources (exempt by the statement), attribute access on zarr/h5py objects, to_delayed, dask's drivers.",
+      "DESIGN.md 6 C29", technique="bounded symbolic execution of the repo's own construction / metadata / optimizer code on symbolic-size trees over recording sources (symx nodes) + z3 SMT (QF_LIA)")
 
 check("C20",
       "Solver-decided for map_blocks calls with one array input whose function reads block_info (or block_id), placed in ten "
